@@ -5,6 +5,7 @@ Property theorems only (statements are fixed; helper lemmas live in `Lemmas/Inte
 -/
 import StunVerif.Spec.Builder
 import StunVerif.Lemmas.Integrity
+import StunVerif.Lemmas.Fingerprint
 import StunVerif.Gen.Xor
 namespace StunVerif.C09
 open StunVerif
@@ -26,12 +27,17 @@ theorem build_fp (b b' : Builder) (h : b.addFingerprint = .ok b') :
     ∃ bytes, b.bytesWithExtraLen 8 = some bytes ∧
       b'.attrs = b.attrs ++ [.raw ⟨tyFP, xorBytes (Crc.crc32Bytes bytes) [0x53, 0x54, 0x55, 0x4e]⟩] ∧
       b'.types = b.types ++ [tyFP] ∧ b'.ty = b.ty ∧ b'.tid = b.tid := by
-  sorry
+  obtain ⟨_, bytes, hb, rfl⟩ := addFingerprint_ok b b' h
+  exact ⟨bytes, hb, rfl, rfl, rfl, rfl⟩
 
 theorem build_fp_input (H : Hashes) (hH : Spec.HashesOk H) (b : Builder) (hr : Spec.Reach H b)
     (hs : b.byteLen + 8 ≤ 65535 + 20) :
     b.bytesWithExtraLen 8 = some (setLen b.build (b.byteLen - 20 + 8)) := by
-  sorry
+  have hok := reach_ok H hH b hr
+  have h20 : 20 ≤ b.byteLen := by unfold Builder.byteLen; omega
+  unfold Builder.bytesWithExtraLen
+  simp only [build_lenField b hok]
+  rw [Nat.mod_eq_of_lt (by omega), if_neg (by omega)]
 
 /-- a buffer that carries a FINGERPRINT is accepted only if the relation holds for its own bytes,
     and nothing follows the FINGERPRINT -/
@@ -42,19 +48,32 @@ theorem accepted_fp_relation (b : Bytes) (m : Msg) (ts pre post : List Spec.Tlv)
     xorBytes x.value [0x53, 0x54, 0x55, 0x4e] =
       Crc.crc32Bytes (setLen (b.take (20 + (pre.flatMap Spec.Tlv.enc).length))
         ((pre.flatMap Spec.Tlv.enc).length + 8)) := by
-  sorry
+  obtain ⟨_, _, _, _, hwf, _, hord, hfp⟩ := hw
+  subst hts
+  have hxw : x.wf := hwf x (by simp)
+  obtain ⟨h4, hcrc⟩ := fpOk_at b pre 20 x post hfp hx
+  have hpost : post = [] := by
+    have := orderOk_fp_last (pre.map (·.ty)) (post.map (·.ty))
+      (by simpa [hx] using hord)
+    simpa using this
+  refine ⟨h4, hpost, ?_⟩
+  rw [hcrc, tlv_fp_enc_length x hxw h4]
+  unfold fpInput
+  congr 2
+  omega
 
 /-- the CRC input determines every byte before the attribute except the length field -/
 theorem input_covers (d d' : Bytes) (off p : Nat) (h4 : 4 ≤ off) (hl : off ≤ d.length)
     (hl' : off ≤ d'.length) (h : fpInput d off p = fpInput d' off p) (i : Nat) (hi : i < off)
     (h2 : i ≠ 2) (h3 : i ≠ 3) : d[i]? = d'[i]? := by
-  sorry
+  have := congrArg (·[i]?) h
+  simpa only [fpInput_getElem? _ _ _ _ hi h2 h3] using this
 
 /-- … and the length field is determined by the buffer length, so a corrupted length field of an
     otherwise intact buffer is refused -/
 theorem length_field_checked (b : Bytes) (m : Msg) (hp : msgFromBytes b = .ok m) :
     beNat ((b.drop 2).take 2) + 20 = b.length := by
-  sorry
+  exact ((msgFromBytes_ok_iff b m).mp hp).2.2.2.2.1
 
 /-- consequently: two accepted buffers of the same length with a FINGERPRINT at the same offset
     that differ somewhere before the attribute must differ in their CRC input, i.e. acceptance of
@@ -67,6 +86,23 @@ theorem corruption_needs_collision (b b' : Bytes) (m m' : Msg) (ts ts' pre pre' 
     (hlen : b.length = b'.length) (hne : b.take (b.length - 8) ≠ b'.take (b.length - 8)) :
     fpInput b (b.length - 8) 8 ≠ fpInput b' (b.length - 8) 8 ∧
     (fpInput b (b.length - 8) 8).length = (fpInput b' (b.length - 8) 8).length := by
-  sorry
+  have h20 : 20 ≤ b.length := ((msgFromBytes_ok_iff b m).mp hp).2.1
+  have hL := length_field_checked b m hp
+  have hL' := length_field_checked b' m' hp'
+  refine ⟨?_, by rw [fpInput_length, fpInput_length, hlen]⟩
+  intro he
+  apply hne
+  have h23 := lenField_eq_getElem? b b' (by omega) (by omega) (by omega)
+  apply List.ext_getElem?
+  intro i
+  by_cases hi : i < b.length - 8
+  · rw [List.getElem?_take_of_lt hi, List.getElem?_take_of_lt hi]
+    by_cases h2 : i = 2
+    · subst h2; exact h23.1
+    · by_cases h3 : i = 3
+      · subst h3; exact h23.2
+      · exact input_covers b b' (b.length - 8) 8 (by omega) (by omega) (by omega) he i hi h2 h3
+  · rw [List.getElem?_eq_none (by rw [List.length_take]; omega),
+      List.getElem?_eq_none (by rw [List.length_take]; omega)]
 
 end StunVerif.C09
